@@ -368,3 +368,68 @@ def mate_iter_replay(inputs, clause):
 
 
 UNITS += [mate_iter_unit(n) for n in (1, 2, 3)]
+
+
+# ------------------------------------------------------------------------------ get_contig_size: the length of the contig IN THE FILE ASKED
+# (count_fragments_binned clips its fetch window and its last bin with it; two BAM files may give the same contig name
+# different lengths)
+CLEN = z3.Function('contig_length_in_file', z3.StringSort(), z3.StringSort(), z3.IntSort())
+
+
+def gcs_setup(eng):
+    from pyvc.engine import Sym
+    eng.spec_env['CLEN_OF'] = Builtin('CLEN_OF', lambda e, a, k, n: Sym(CLEN(z3.StringVal(a[0]), z3.StringVal(a[1])), INT))
+
+    def bam(e, a, k, n):
+        o = stubs.Obj('AlignmentFile', {'path': a[0]})
+        o.vc_immutable = True
+        return o
+    stubs.STUBS['AlignmentFile'] = {
+        'methods': {'__enter__': lambda e, o: o, '__exit__': lambda e, o, *a: None},
+        'props': {'references': lambda e, o: ['chr1', 'chr2'],
+                  'lengths': lambda e, o: [Sym(CLEN(z3.StringVal(o.attrs['path']), z3.StringVal(c)), INT) for c in ('chr1', 'chr2')]},
+        'setters': {}}
+    externals.EXTRA['pysam.AlignmentFile'] = bam
+
+
+contig_size = Contract(
+    PROP, FB + '::get_contig_size', name='get_contig_size[two files, same contig names]',
+    harness='''
+first = get_contig_size('a.bam', 'chr2')
+second = get_contig_size('b.bam', 'chr2')
+third = get_contig_size('b.bam', 'chr1')
+missing = get_contig_size('a.bam', 'chrUn')
+return (first, second, third, missing)
+''',
+    params={}, setup=gcs_setup,
+    ensures={
+        'the_length_recorded_in_the_header_of_the_file_asked':
+            'result[0] == CLEN_OF("a.bam", "chr2") and result[1] == CLEN_OF("b.bam", "chr2") and result[2] == CLEN_OF("b.bam", "chr1")',
+        'unknown_contig': 'result[3] is None',
+    },
+    raises={},
+    bounded='two BAM files with two contigs each (symbolic lengths), four lookups',
+    assumptions=['pysam.AlignmentFile header accessors through a stub'],
+)
+def gcs_replay(inputs, clause):
+    """real get_contig_size on two header-only BAM files that give the same contig names different lengths"""
+    import os
+    from pyvc import bamreplay as B
+    from pyvc.contract import import_real
+    fn = import_real(FB, 'get_contig_size')
+    d = B.scratch('c12s_')
+    try:
+        a, b = os.path.join(d, 'a.bam'), os.path.join(d, 'b.bam')
+        B.write_bam(a, [('chr1', 1000), ('chr2', 2000)], [])
+        B.write_bam(b, [('chr1', 1500), ('chr2', 2500)], [])
+        got = [fn(a, 'chr2'), fn(b, 'chr2'), fn(b, 'chr1'), fn(a, 'chrUn')]
+    finally:
+        B.cleanup(d)
+    want = [2000, 2500, 1500, None]
+    obs = {'outcome': 'return', 'value': got, 'expected': want}
+    return {'status': 'confirmed' if got != want else 'not-reproduced', 'observed': obs,
+            'failed': [{'clause': clause}] if got != want else []}
+
+
+contig_size.replay = gcs_replay
+UNITS.append(contig_size)
